@@ -10,7 +10,8 @@ CLAIM = dict(
     text=("Model = index/slice.hpp after the repair 'fix: slice arithmetic follows python's slice.indices' (normalize_slice = "
           "PySlice_AdjustIndices in int64_t, integer ceiling for the length; the pinned size_t/int/binary32 arithmetic was wrong on "
           "5 127 of the 7 588 inputs of the per-axis box). Kernel-checked for EVERY input of the argument types - extent below 2^62, "
-          "int bounds (None, negative, out of range) and non-zero int step: (1) C05_normalize_is_slice_indices - the normalised "
+          "bounds of any integer type (int, int64_t, size_t) with magnitude below 2^62 (None, negative, out of range) and non-zero "
+          "step of magnitude below 2^62: (1) C05_normalize_is_slice_indices - the normalised "
           "(start, stop, step) are Python's and no int64_t/size_t operation of the model wraps; (2) C05_slice_python - the length is "
           "Python's len(range(*slice.indices(n))) and element k is source element start' + k*step; (3) C05_index_in_bounds - every "
           "source index lies in [0,n); (4) C05_multi_axis - any rank: integers drop their axis, one ellipsis stands for the "
@@ -18,7 +19,8 @@ CLAIM = dict(
           "vm_compute sweep of the 10 388 box inputs. Correspondence: the real C++ against the extracted model and against Python on "
           "the whole per-axis box in five encodings (typed tuple through apply_*; direct variadic call with std::array shape; "
           "run-time list of either; list of std::array<int,K>; compile-time-constant parts incl. negative ones), length AND every "
-          "source index; extents around 2^24 and up to 2^31-1; seeded 1..3-axis combinations with integers and an ellipsis in every "
+          "source index; extents around 2^24, 2^31, 2^32, 2^40 and 2^62-1 with int, int64_t and size_t typed bounds and steps up to 2^61 "
+          "(index math only: length, first two and last source index); seeded 1..3-axis combinations with integers and an ellipsis in every "
           "position (also standing for no axis) at index and at view level, both encodings; view::slice with a single slice."),
     ref="5.5", technique="Coq proof for all inputs of the argument types + differential correspondence with the extracted model", extra="")
 RULE = ("stream box: every n in 1..6, start/stop in [-(n+2), n+2] or None, step in {-3..-1,1..3}, None or omitted (2-part slice) "
@@ -32,7 +34,8 @@ THEOREM_STATUS = {"proved": ["C05_slice_python", "C05_normalize_is_slice_indices
                              "C05_python_on_box", "C05_zero_step_undefined"],
                   "partial": [], "refuted": []}
 ASSUMPTIONS = [
-    "arguments have the C++ types the theorems name: bounds/steps are int, extents are size_t below 2^62, indices are size_t",
+    "arguments have the C++ types the theorems name: bounds/steps are integers of any type with magnitude below 2^62 (a size_t bound "
+    ">= 2^63 would wrap in static_cast<int64_t>), extents are size_t below 2^62, indices are size_t; integer (non-slice) parts are int",
     "step = 0 (Python raises ValueError) and integer parts outside [-n,n) (Python raises IndexError) are outside the quantifier: "
     "spec = unspecified; the code divides by zero / returns an out-of-range index there",
     "well-formed indices only: the parts account for every axis (the header has no error handling for other calls)",
@@ -42,18 +45,19 @@ ASSUMPTIONS = [
 
 
 def drivers(tier):
-    """at most 4 compile jobs run at once (the specs of one key are built concurrently, keys one after the other).
+    """at most 3 compile jobs run at once (the specs of one key are built concurrently, keys one after the other).
     A binary answers `unsupported` to the cases of the other TUs, so several TUs can share a key."""
     p = gen_c05.write_drivers(tier)
     nt = gen_c05.n_tus(tier)
-    out = {"a": [(p["ax"], "ndebug", ()), (p["ax"], "asan", ()), (p["dyn"], "ndebug", ()), (p["dyn"], "asan", ())]}
-    if tier == "quick":
-        out["m"] = [(p["mx%d" % t], "ndebug", ()) for t in range(nt)] + [(p["mx0"], "asan", ())]
-    else:
-        for g in range(0, nt, 4):
-            out["m%d" % (g // 4)] = [(p["mx%d" % t], "ndebug", ()) for t in range(g, min(nt, g + 4))]
-        out["ms"] = [(p["mx%d" % t], "asan", ()) for t in range(0, nt, 2)]
+    out = {"a": [(p["ax"], "ndebug", ()), (p["ax"], "asan", ()), (p["edge"], "ndebug", ())],
+           "d": [(p["dyn"], "ndebug", ()), (p["dyn"], "asan", ())]}
+    if tier != "quick": out["d"].append((p["edge"], "asan", ()))
+    for g in range(0, nt, 2):
+        out[mkey(g)] = [(p["mx%d" % t], "ndebug", ()) for t in range(g, min(nt, g + 2))] + [(p["mx%d" % g], "asan", ())]
     return out
+
+
+def mkey(tu): return "m%d" % (tu // 2)
 
 
 def P(v): return "N" if v is None else ("O" if v == "O" else "I:%d" % v)
@@ -90,7 +94,8 @@ def gen_cases(rng, tier):
                 for c in ("O", -1, 2):
                     add("box", "ax S:ct I:%d %s %s %s" % (n, P(a), P(b), P(c)), "a")
     # ---- large extents, index math only (the length goes through binary32 above 2^24)
-    big = [2**24 - 1, 2**24, 2**24 + 1, 2**24 + 3, 2**25 + 7, 2**27 + 11, 2**31 - 200, 2**31 - 65, 2**31 - 64, 2**31 - 1]
+    big = [2**24 - 1, 2**24, 2**24 + 1, 2**24 + 3, 2**25 + 7, 2**27 + 11, 2**31 - 200, 2**31 - 65, 2**31 - 64, 2**31 - 2, 2**31 - 1,
+           2**31, 2**31 + 1, 2**32 - 1, 2**32, 2**32 + 1, 2**40, 2**62 - 1]
     for n in big:
         near = [0, 1, 2, 5, n - 2, n - 1, n, n + 1, -1, -2, -n, -n + 1, -n - 1]
         cands = [(None, None), (0, None), (1, None), (n - 1, None), (n, None), (None, n), (None, n - 1), (None, -1), (None, 5), (0, n), (1, n - 1), (-5, n + 3), (3, -2)]
@@ -102,11 +107,31 @@ def gen_cases(rng, tier):
                 pat = pattern(a, b, c)
                 e = rng.choice(ENCS if pat in ("iii", "iiO") else ENCS[:3])
                 add("edge", "ax S:%s I:%d %s %s %s" % (e, n, P(a), P(b), P(c)), "a")
+    # ---- the whole range the theorem claims: extents up to 2^62-1, parts of 64-bit types (int64_t J:, size_t U:)
+    wide = [2**31 - 2, 2**31 - 1, 2**31, 2**31 + 1, 2**31 + 2, 2**32 - 1, 2**32, 2**32 + 1, 2**40, 2**62 - 1]
+    def typed(v):
+        if v is None or v == "O": return P(v)
+        return ("U:%d" % v) if (v >= 0 and rng.random() < 0.5) else ("J:%d" % v)
+    for n in wide:
+        vals = [0, 1, 2, -1, -2, n, -n, n - 1, n + 1, n - 2, n + 2, -(n - 1), -(n + 1), -(n - 2), -(n + 2),
+                2**31, -2**31, 2**31 - 1, 2**32, -2**32, 2**32 + 1, n // 2, -(n // 3)]
+        vals = [v for v in vals if abs(v) < 2**63]
+        steps = [None, "O", 1, 2, 3, -1, -2, -3, 2**31, -2**31, 2**32 + 1, -(2**33 + 5), 2**40, 2**61]
+        fixed = [(None, None), (0, n), (0, n + 2), (n + 2, None), (n + 1, None), (None, n + 1), (-1, None), (None, -1), (1, n - 1), (n - 1, 0),
+                 (-(n + 2), n + 2), (2**31, None), (None, 2**31), (0, 2**32)]
+        draws = fixed + [(rng.choice([None] + vals), rng.choice([None] + vals)) for _ in range(20 if tier == "quick" else 250)]
+        for k, (a, b) in enumerate(draws):
+            cs = steps if (tier != "quick" and k < len(fixed)) else [None, 1, -1] + rng.sample(steps, 2 if tier == "quick" else 4)
+            for c in cs:
+                for e in (("var", "dyn") if (tier != "quick" or k < len(fixed)) else (rng.choice(["var", "dyn"]),)):
+                    line = "ex S:%s I:%d %s %s %s" % (e, n, typed(a), typed(b), typed(c))
+                    add("wide", line, "a")
+                    if tier != "quick" and rng.random() < 0.1: add("wide", line, "d")     # the sanitizer build of the edge driver
     # ---- the public variadic view::slice with exactly one slice on a 1-d array
     for n in (3, 5):
         for (a, b) in [(0, n), (1, 3), (0, 2), (-2, n), (2, 2)]:
-            add("single", "v1 I:%d I:%d I:%d" % (n, a, b), "a")
-            add("single", "v1 I:%d I:%d I:%d I:1" % (n, a, b), "a")
+            add("single", "v1 I:%d I:%d I:%d" % (n, a, b), "d")
+            add("single", "v1 I:%d I:%d I:%d I:1" % (n, a, b), "d")
     # ---- several axes
     def draw_part(t, n):
         if t == "e": return "S:e"
@@ -136,7 +161,7 @@ def gen_cases(rng, tier):
     nt = gen_c05.n_tus(tier)
     ndraw = 6 if tier == "quick" else 12
     for cid, (dim, parts) in enumerate(combos):
-        key = "m" if tier == "quick" else "m%d" % ((cid % nt) // 4)
+        key = mkey(cid % nt)
         for d in range(ndraw):
             body = parts_line(draw_shape(dim), parts)
             add("multi", "mx S:%s S:c%d %s" % ("var" if d % 2 == 0 else "tup", cid, body), key)
@@ -152,8 +177,8 @@ def gen_cases(rng, tier):
             if has_e: parts.insert(rng.randint(0, len(parts)), "e")
             if nf + sum(1 for x in parts if x not in ("i", "e")) == 0: continue
             body = parts_line(draw_shape(dim), parts)
-            add("multi", "mx S:dyn S:%s %s" % (pat, body), "a")
-            add("multi", "vw S:dyn S:%s %s" % (pat, body), "a")
+            add("multi", "mx S:dyn S:%s %s" % (pat, body), "d")
+            add("multi", "vw S:dyn S:%s %s" % (pat, body), "d")
     return out
 
 
@@ -166,7 +191,7 @@ def distribution(streams):
     for _, line, _ in streams:
         t = line.split(" ")
         ops[t[0]] += 1; encs[t[1][2:] if t[1].startswith("S:") else "-"] += 1
-        if t[0] == "ax":
+        if t[0] in ("ax", "ex"):
             pats["".join("N" if x == "N" else "O" if x == "O" else "i" for x in t[3:6])] += 1
     return {"ops": dict(ops), "encodings": dict(encs), "axis_patterns": dict(pats)}
 
